@@ -267,7 +267,7 @@ def check_resources(ctx, pid):
         cls(f)
     # C23: atree validation inside the runtime is OFF (as in production) so that a leaked or doubly
     # referenced slab reaches the committed ledger and the monitor is what detects it
-    extra = ["health=1", "atree=0" if health_only else "atree=1"]
+    extra = ["health=1"] + (["atree=0", "healthfirst=1"] if health_only else ["atree=1"])
     s1, f1 = run_driver(ctx, binary, "replay", behs, "cover", extra)
     s2, f2 = run_driver(ctx, binary, "replay", sbehs, "sim", extra)
     for f in f1 + f2:
